@@ -32,6 +32,31 @@ edit('syntax/lexer.go', lambda s: s.replace('func (p *Parser) peek() byte {\n\ti
 edit('syntax/printer.go', lambda s: s.replace('\thdocs := p.pendingHdocs\n','\tvar hdocs []*Redirect\n\thdocs = p.pendingHdocs\n'))
 edit('syntax/simplify.go', lambda s: s.replace('\t\tif node.Op == TsMatchShort {\n\t\t\ts.modified = true\n\t\t\tnode.Op = TsMatch\n\t\t}','\t\tif node.Op == TsMatchShort {\n\t\t\tnode.Op = TsMatch\n\t\t\ts.modified = true\n\t\t}'))
 edit('interp/test.go', lambda s: s.replace('\t\t\t_, ok := stdinTerminal(r.stdin)\n\t\t\treturn ok\n','\t\t\t_, isTerm := stdinTerminal(r.stdin)\n\t\t\treturn isTerm\n'))
+# third batch: the command substitution body moved into a helper that makes the copy itself
+edit('interp/runner.go', lambda s: s.replace("""			sub := r.subshell(false)
+			sub.stdout = w
+			sub.stmts(ctx, cs.Stmts)
+			sub.exit.exiting = false // subshells don't exit the parent shell
+			r.lastExpandExit = sub.exit
+			if sub.exit.fatalExit {
+				return sub.exit.err // surface fatal errors immediately
+			}
+			return nil
+""","""			sub := r.runIsolated(ctx, w, cs.Stmts)
+			r.lastExpandExit = sub.exit
+			if sub.exit.fatalExit {
+				return sub.exit.err // surface fatal errors immediately
+			}
+			return nil
+""").replace("func (r *Runner) updateExpandOpts() {", """func (r *Runner) runIsolated(ctx context.Context, w io.Writer, stmts []*syntax.Stmt) *Runner {
+	sub := r.subshell(false)
+	sub.stdout = w
+	sub.stmts(ctx, stmts)
+	sub.exit.exiting = false // subshells don't exit the parent shell
+	return sub
+}
+
+func (r *Runner) updateExpandOpts() {"""))
 PY
 GOFLAGS=-mod=mod GOPROXY=off go build ./...
 cd /verif
@@ -41,5 +66,5 @@ for id in $(jq -r '.checks[].property_id' MANIFEST.json); do
   echo "$out" | cut -c1-160
   case "$out" in *" OK:"*) ;; *) rc=1;; esac
 done
-git -C /repo worktree remove --force $WT
+[ -n "$KEEP" ] || git -C /repo worktree remove --force $WT
 exit $rc
